@@ -9,106 +9,7 @@ use vstd::std_specs::hash::*;
 verus! {
 //@include common/prelude.vrs
 
-// Option::ok_or_else(|| anyhow!(..)) on a reference / .copied(): helpers with the obvious contracts (R7)
-pub fn opt_ok_or_ref<'a, T>(o: Option<&'a T>) -> (r: Result<&'a T, VErr>) ensures r is Ok <==> o is Some, r is Ok ==> r.unwrap() == o.unwrap() { match o { Some(v) => Ok(v), None => Err(verr()) } }
-pub fn opt_ok_or_copied(o: Option<&u32>) -> (r: Result<u32, VErr>) ensures r is Ok <==> o is Some, r is Ok ==> r.unwrap() == *o.unwrap() { match o { Some(v) => Ok(*v), None => Err(verr()) } }
-
-// trusted: T::clone returns an equal value (derive(Clone) / String::clone)
-pub trait CloneEq: Clone + Sized { }
-#[verifier::external_body]
-pub fn clone_eq<T: Clone>(t: &T) -> (r: T) ensures r == *t { t.clone() }
-
-//@extract struct file="versatiles_geometry/src/vector_tile/property_manager.rs" name="VTLPMap"
-//@end
-
-impl<T> VTLPMap<T>
-where
-	T: Clone + Eq + Hash,
-{
-	// representation invariant: the map sends every entry of the list to the position of its FIRST occurrence
-	pub open spec fn inv(&self) -> bool {
-		obeys_key_model::<T>()
-		&& self.list@.len() <= u32::MAX
-		&& (forall|k: T| #[trigger] self.map@.contains_key(k) ==> (self.map@[k] as int) < self.list@.len() && self.list@[self.map@[k] as int] == k
-				&& forall|j: int| 0 <= j < self.map@[k] ==> self.list@[j] != k)
-		&& (forall|i: int| 0 <= i < self.list@.len() ==> self.map@.contains_key(#[trigger] self.list@[i]))
-	}
-
-//@extract fn file="versatiles_geometry/src/vector_tile/property_manager.rs" scope="impl<T> VTLPMap<T> where T: Clone + Debug + Eq + Hash," name="add"
-//@rewrite "entry.clone()" => "clone_eq(&entry)" R7
-//@ret r
-//@spec
-		requires old(self).inv(), old(self).list@.len() < u32::MAX
-		ensures final(self).inv(),
-			// de-duplicating: an entry already in the table is found at its first position, the table is unchanged
-			old(self).map@.contains_key(entry) ==> final(self).list@ == old(self).list@ && r == old(self).map@[entry],
-			// otherwise it is appended
-			!old(self).map@.contains_key(entry) ==> final(self).list@ == old(self).list@.push(entry) && r == old(self).list@.len(),
-			(r as int) < final(self).list@.len() && final(self).list@[r as int] == entry,
-//@end
-//@extract fn file="versatiles_geometry/src/vector_tile/property_manager.rs" scope="impl<T> VTLPMap<T> where T: Clone + Debug + Eq + Hash," name="push"
-//@rewrite "entry.clone()" => "clone_eq(&entry)" R7
-//@ret r
-//@spec
-		requires old(self).inv(), old(self).list@.len() < u32::MAX
-		// positional fidelity (MVT spec 4.4): every call appends exactly one entry at the end and returns its position
-		ensures final(self).inv(), final(self).list@ == old(self).list@.push(entry), r == old(self).list@.len(),
-//@end
-//@extract fn file="versatiles_geometry/src/vector_tile/property_manager.rs" scope="impl<T> VTLPMap<T> where T: Clone + Debug + Eq + Hash," name="find"
-//@rewrite "self .map .get(entry) .ok_or_else(|| verr()) .copied()" => "opt_ok_or_copied(self.map.get(entry))" R7
-//@ret r
-//@spec
-		requires self.inv()
-		ensures r is Ok <==> self.map@.contains_key(*entry),
-			r is Ok ==> (r.unwrap() as int) < self.list@.len() && self.list@[r.unwrap() as int] == *entry,
-//@end
-//@extract fn file="versatiles_geometry/src/vector_tile/property_manager.rs" scope="impl<T> VTLPMap<T> where T: Clone + Debug + Eq + Hash," name="get"
-//@rewrite "self .list .get(id as usize) .ok_or_else(|| verr())" => "opt_ok_or_ref(vec_get(&self.list, id as usize))" R7
-//@ret r
-//@spec
-		// arbitrary id (tag ids come from the file): Ok or Err, never out of bounds (C19)
-		ensures r is Ok <==> (id as int) < self.list@.len(), r is Ok ==> *r.unwrap() == self.list@[id as int],
-//@end
-}
-// R6: String keys and GeoValue values -> opaque hashable types (std String; repo enum GeoValue with derived Eq/Hash)
-#[verifier::external_type_specification] #[verifier::external_body] pub struct ExAbsStr(AbsStr);
-#[verifier::external_type_specification] #[verifier::external_body] pub struct ExGeoValue(GeoValue);
-//@extract struct file="versatiles_geometry/src/vector_tile/property_manager.rs" name="PropertyManager"
-//@rewrite "String" => "AbsStr"
-//@end
-impl PropertyManager {
-	pub open spec fn inv(&self) -> bool { self.key.inv() && self.val.inv() }
-//@extract fn file="versatiles_geometry/src/vector_tile/property_manager.rs" scope="impl PropertyManager" name="add_key"
-//@rewrite "String" => "AbsStr"
-//@ret r
-//@spec
-		requires old(self).inv(), old(self).key.list@.len() < u32::MAX
-		ensures final(self).inv(), final(self).val == old(self).val, (r as int) < final(self).key.list@.len() && final(self).key.list@[r as int] == key,
-			old(self).key.list@.len() <= final(self).key.list@.len(), forall|i: int| 0 <= i < old(self).key.list@.len() ==> final(self).key.list@[i] == old(self).key.list@[i],
-//@end
-//@extract fn file="versatiles_geometry/src/vector_tile/property_manager.rs" scope="impl PropertyManager" name="add_val"
-//@ret r
-//@spec
-		requires old(self).inv(), old(self).val.list@.len() < u32::MAX
-		ensures final(self).inv(), final(self).key == old(self).key, (r as int) < final(self).val.list@.len() && final(self).val.list@[r as int] == value,
-			old(self).val.list@.len() <= final(self).val.list@.len(), forall|i: int| 0 <= i < old(self).val.list@.len() ==> final(self).val.list@[i] == old(self).val.list@[i],
-//@end
-//@extract fn file="versatiles_geometry/src/vector_tile/property_manager.rs" scope="impl PropertyManager" name="push_key"
-//@rewrite "String" => "AbsStr"
-//@ret r
-//@spec
-		requires old(self).inv(), old(self).key.list@.len() < u32::MAX
-		ensures final(self).inv(), final(self).val == old(self).val, final(self).key.list@ == old(self).key.list@.push(key), r == old(self).key.list@.len(),
-//@end
-//@extract fn file="versatiles_geometry/src/vector_tile/property_manager.rs" scope="impl PropertyManager" name="push_val"
-//@ret r
-//@spec
-		requires old(self).inv(), old(self).val.list@.len() < u32::MAX
-		ensures final(self).inv(), final(self).key == old(self).key, final(self).val.list@ == old(self).val.list@.push(value), r == old(self).val.list@.len(),
-//@end
-}
-// Vec::get / slice::get(usize)
-pub fn vec_get<T>(v: &Vec<T>, i: usize) -> (r: Option<&T>) ensures r is Some <==> i < v@.len(), r is Some ==> *r.unwrap() == v@[i as int] { if i < v.len() { Some(&v[i]) } else { None } }
+//@include common/vt_tables.vrs
 
 // positional fidelity over a whole table: n pushes produce exactly the n pushed entries, in order
 pub proof fn lemma_push_sequence<T>(before: Seq<T>, pushed: Seq<T>, after: Seq<T>)
